@@ -193,6 +193,7 @@ func checkC13(r *Report) {
 			}
 		}
 	}
+	noWideSubtractRule(r, p, "C13.f/NO-WIDE-SUBTRACT", threeWayFns(p, "resolve"))
 	mapOrderRule(r, p, "C13.f/MAP-ORDER", threeWayFns(p, "resolve"))
 	nSym := signSymmetryRule(r, p, "C13.f/SIGN-SYMMETRIC", threeWayFns(p, "resolve"))
 	r.floor("C13.f/SIGN-SYMMETRIC", "three-way comparators of package resolve", nSym, 3)
@@ -258,7 +259,7 @@ func checkC14(r *Report) {
 	e := runEffect(p)
 	pathTrusted(r)
 	effectTrusted(r)
-	r.Explain = "Structural clauses of 'the in-memory client reports what was last added'. C14.a NOOP-STORE (deny-list, expected count zero, armed by a positive example analysed on every run): no store in package resolve writes back to s[i] the value just read from s[i] — the shape of AddVersion's replace branch storing the old element instead of the new one. C14.b REPLACE-STORES-NEW: in LocalClient.AddVersion the store into the version slice inside the replace loop stores the parameter. C14.c READ-PURE: Version, Versions, Requirements and MatchingVersions of LocalClient write nothing reachable from the receiver, so lookups cannot change what later lookups report. C14.d ADD-COMPLETE: every return of AddVersion except the one for Deleted versions passes the store of the requirements, the store of the version list and the loop (or helper) that makes dependency packages known. C14.e KEY-COVER: each lookup method reads every leaf component of the key it is given, so a key that was never added cannot be reported as found because it resembles a stored one. Not decided: equivalence with a map model over all histories."
+	r.Explain = "Structural clauses of 'the in-memory client reports what was last added'. C14.a NOOP-STORE (deny-list, expected count zero, armed by a positive example analysed on every run): no store in package resolve writes back to s[i] the value just read from s[i] — the shape of AddVersion's replace branch storing the old element instead of the new one. C14.b REPLACE-STORES-NEW: in LocalClient.AddVersion the store into the version slice inside the replace loop stores the parameter. C14.c READ-PURE: Version, Versions, Requirements and MatchingVersions of LocalClient write nothing reachable from the receiver, so lookups cannot change what later lookups report. C14.d ADD-COMPLETE: every return of AddVersion except the one for Deleted versions passes the store of the requirements, the store of the version list and the loop (or helper) that makes dependency packages known. C14.f KNOWN-BY-PRESENCE: Versions, Requirements and MatchingVersions decide between 'found' and ErrNotFound on the comma-ok result of a lookup in the client's own table (presence of the key), never on the looked-up value being nil or empty, so a package known only through a requirement (present with no versions) is reported as known by all of them alike. C14.e KEY-COVER: each lookup method reads every leaf component of the key it is given, so a key that was never added cannot be reported as found because it resembles a stored one. Not decided: equivalence with a map model over all histories."
 	fns := pkgFuncs(p, "resolve")
 	r.floor("C14.a/NOOP-STORE", "functions of package resolve scanned", len(fns), 100)
 	nIdxStores := 0
@@ -338,6 +339,9 @@ func checkC14(r *Report) {
 	keyCoverRule(r, p, "C14.e/KEY-COVER", "(*resolve.LocalClient).Versions", 2)
 	keyCoverRule(r, p, "C14.e/KEY-COVER", "(*resolve.LocalClient).Requirements", 2)
 	keyCoverRule(r, p, "C14.e/KEY-COVER", "(*resolve.LocalClient).MatchingVersions", 2)
+	for _, m := range []string{"Versions", "Requirements", "MatchingVersions"} {
+		knownByPresenceRule(r, p, "C14.f/KNOWN-BY-PRESENCE", "(*resolve.LocalClient)."+m)
+	}
 	n := readPureRule(r, p, e, "C14.c/READ-PURE", "resolve.LocalClient")
 	r.floor("C14.c/READ-PURE", "resolve.Client methods of LocalClient", n, 4)
 }
@@ -884,5 +888,70 @@ func addCompleteRule(r *Report, p *Prog, e *Effect, add *ssa.Function) {
 		check("the loop that makes every dependency package known", func(b *ssa.BasicBlock) bool {
 			return (ensure != nil && b == ensure.header) || helperCall(b)
 		})
+	}
+}
+
+// knownByPresenceRule: see checkC14 (C14.f).
+func knownByPresenceRule(r *Report, p *Prog, rule, fnName string) {
+	f := p.lookupFn(fnName)
+	if f == nil {
+		r.bad(rule, fnName, "", "function not found: anchor lost")
+		return
+	}
+	errIdx := f.Signature.Results().Len() - 1
+	// blocks that return a non-nil / a nil error
+	reachErr, reachOK := map[*ssa.BasicBlock]bool{}, map[*ssa.BasicBlock]bool{}
+	var mark func(b *ssa.BasicBlock, m map[*ssa.BasicBlock]bool)
+	mark = func(b *ssa.BasicBlock, m map[*ssa.BasicBlock]bool) {
+		if m[b] {
+			return
+		}
+		m[b] = true
+		for _, pr := range b.Preds {
+			mark(pr, m)
+		}
+	}
+	for _, b := range f.Blocks {
+		ret, ok := b.Instrs[len(b.Instrs)-1].(*ssa.Return)
+		if !ok || len(ret.Results) <= errIdx {
+			continue
+		}
+		if c, ok := ret.Results[errIdx].(*ssa.Const); ok && c.Value == nil {
+			mark(b, reachOK)
+		} else {
+			mark(b, reachErr)
+		}
+	}
+	n := 0
+	for _, b := range f.Blocks {
+		ifi, ok := b.Instrs[len(b.Instrs)-1].(*ssa.If)
+		if !ok {
+			continue
+		}
+		s0, s1 := b.Succs[0], b.Succs[1]
+		// a deciding branch: one side can only fail, the other can succeed
+		onlyErr0 := reachErr[s0] && !reachOK[s0]
+		onlyErr1 := reachErr[s1] && !reachOK[s1]
+		if onlyErr0 == onlyErr1 {
+			continue
+		}
+		n++
+		key := fmt.Sprintf("%s: found/not-found decision #%d", fnKey(f), n)
+		presence := condDerives(ifi.Cond, 0, func(v ssa.Value) bool {
+			ex, ok := v.(*ssa.Extract)
+			if !ok || ex.Index != 1 {
+				return false
+			}
+			lk, ok := ex.Tuple.(*ssa.Lookup)
+			return ok && lk.CommaOk && nearestField(lk.X) != nil
+		})
+		if presence {
+			r.ok(rule, key, p.pos(ifi.Pos()), "decided on the comma-ok result of a lookup in the client's own table")
+		} else {
+			r.bad(rule, key, blockPos(p, b), "ErrNotFound is decided on something other than the presence of the key in the client's table (the value being nil or empty): a package or version that is present with nothing in it is reported as unknown, and the client's read methods disagree about what is known")
+		}
+	}
+	if n == 0 {
+		r.bad(rule, fnKey(f)+": found/not-found decision", p.pos(f.Pos()), "no branch separating the found return from the ErrNotFound return was recognised: anchor lost")
 	}
 }
